@@ -68,7 +68,15 @@ class fibonacci_heap
         for (int i = 0; i < max_num_nodes; i++)
             nodes[i] = new fibonacci_heap_node;
 
-        Dn = 1 + (int)(log(ScalarType(max_num_nodes)) / log(2.));
+        // a tree of rank r holds at least fib(r+2) nodes, so every rank stays below the
+        // least r with fib(r+2) > capacity (log2 of the capacity underestimates that bound)
+        Dn = 1;
+        for (long long a = 1, b = 2; a <= max_num_nodes; Dn++)
+        {
+            const long long next = a + b;
+            a = b;
+            b = next;
+        }
         A = (fibonacci_heap_node**)malloc(sizeof(fibonacci_heap_node*) * Dn);
         for (int i = 0; i < Dn; i++)
             A[i] = NULL;
